@@ -116,7 +116,7 @@ def _c_ints(xs):
 
 
 def _c_doubles(xs):
-    return "{" + ", ".join(float(x).hex() for x in xs) + "}" if len(xs) else "{0}"
+    return "{" + ", ".join(c_double(x) for x in xs) + "}" if len(xs) else "{0}"
 
 
 def _emit_case(k, case: NativeCase, tag):
@@ -215,6 +215,18 @@ def build_binary(cases: list, workdir: str, name: str, sanitizer="asan"):
     if r.returncode != 0:
         return None, r.stderr[-2000:]
     return exe, ""
+
+
+def c_double(v):
+    """C spelling of a double: hexadecimal floating constant, compiler builtins for the IEEE specials."""
+    v = float(v)
+    if v != v:
+        return "__builtin_nan(\"\")"
+    if v == float("inf"):
+        return "__builtin_inf()"
+    if v == float("-inf"):
+        return "(-__builtin_inf())"
+    return v.hex()
 
 
 def run_case(exe, k, timeout=60):
